@@ -17,7 +17,7 @@ func init() { register("C18", runC18) }
 func q(s string) string { return regexp.QuoteMeta(s) }
 
 func runC18(c *core.Ctx) core.Meta {
-	c.Load(rdmaPkg, driverPkg)
+	c.Load(rdmaPkg, driverPkg, kernelsPkg)
 	c.BuildSSA()
 	p := NewPkgInfo(c, rdmaPkg)
 	prov := core.NewProv(c)
@@ -292,6 +292,7 @@ func runC18(c *core.Ctx) core.Meta {
 	lp := core.NewLocalProv(c)
 	lp.InlinePure = true
 	checkWGDistribution(c, lp, "R18.6")
+	checkFilteredCountWholeGrid(c, "R18.11")
 
 	// R18.9: the driver counts the work-groups it distributes with the grid builder's formula (R08.1's check)
 	checkWGCountFormula(c, prov, "R18.9", []string{driverPkg}, 2)
